@@ -500,8 +500,17 @@ def _cmp_c17(kind, case, impl, model):
     return None if a == b else first_diff(a, b)
 
 
+_C17_MUST_REFUSE = {"single-char-change", "initial-state-respelled", "initial-state-padding", "initial-state-lenient-base64",
+                    "foreign-namespace", "short-form", "suffix-of-another-request", "missing-parts", "tampered-initial-state",
+                    "initial-state-extra-member", "initial-state-not-a-create", "initial-state-other-type-value"}
+
+
 def _c17_property(r):
     imp = r["impl"]
+    if r["kind"] == "resolve" and r["case"].get("label") in _C17_MUST_REFUSE and isinstance(imp, dict) and imp.get("class") == "ok" \
+            and not (r["case"]["label"] == "foreign-namespace" and r["case"]["did"].startswith(r["case"]["ns"] + ":")):
+        # "non-canonical or tampered initial states and mismatching suffixes are rejected"; every single-character change
+        return "resolve/" + r["case"]["label"] + "/resolves"
     if r["kind"] == "process" and isinstance(imp, dict) and imp.get("class") == "ok":
         # "a long-form DID ... returned when a create request is processed, resolves ... to" the same result
         if imp.get("resolve_again") != imp.get("result"):
@@ -689,7 +698,7 @@ def _drop_keys(v, keys):
 def _cmp_c19(kind, case, impl, model):
     from check import canon, first_diff
     impl = _drop_keys(impl, {"how", "detail", "panic", "deviation"})
-    model = _drop_keys(model, {"deviation", "why"})
+    model = _drop_keys(model, {"deviation", "why", "premises"})   # premises: evaluated hypotheses of a theorem, not behaviour
     if isinstance(impl, dict) and impl.get("class") == "killed" and isinstance(model, dict) and model.get("class") == "killed":
         return None
     if kind == "transform":
